@@ -214,6 +214,9 @@ func genIcpts(r *rand.Rand, c cfgSpec) []icptSpec {
 	case 0:
 		return []icptSpec{{Kind: "grow", D: []int{1, 2, 40, 80}[r.Intn(4)]}}
 	case 1:
+		if r.Intn(2) == 0 {
+			return []icptSpec{{Kind: "setval", V: c.MaxMessageBytes / 4}} // shrinks everything to a clearly legal size
+		}
 		return []icptSpec{{Kind: "setval", V: c.MaxMessageBytes - overhead(c) - 20}}
 	case 2:
 		if isBatch(c.Version) {
@@ -1168,8 +1171,10 @@ func main() {
 			switch x := r.Intn(10); {
 			case x < 3 && absolute: // any size, also far too large: the interceptor replaces the value
 				target = c.MaxMessageBytes + 50 + r.Intn(300)
-			case x < 3 && delta > 0: // straddles the limit after the interceptors
+			case x < 2 && delta > 0: // straddles the limit after the interceptors
 				target = c.MaxMessageBytes - delta + r.Intn(3) - 1
+			case x < 4 && delta > 0: // just legal before the interceptors, too large after them
+				target = c.MaxMessageBytes - r.Intn(3)
 			case x < 1:
 				target = c.MaxMessageBytes + r.Intn(3) - 1
 			case x < 3:
